@@ -112,6 +112,7 @@ def run(chk):
     for e in events[:1]:
         chk.samples.append({"trace_event": {k: v for k, v in e.items() if k != "probes"}, "n_probes": len(e["probes"])})
     shared_contexts(chk, model)
+    decorated_function_raises(chk, model)
     return chk.finish(
         rule="cases = behaviours of PintRegistry (MC_Pint): all of length 3, each executed step by "
              "step on a fresh real registry with the full probe vector compared after every step, plus random histories of 25 calls validated by Trace_Pint; distinct by operation sequence; "
@@ -146,6 +147,61 @@ def shared_contexts(chk, model):
         chk.diverge({"clause": "activation-leaks-to-other-registry"}, {"before": repr(base2), "after": repr(in2)})
     if d2 != ("ok", F(3) * 2 * 2) or d1 != ("ok", F(3) * 2 * 5):      # coef 2, default p = 2 resp. the p = 5 still enabled
         chk.diverge({"clause": "shared-context-parameters"}, {"u2_default": repr(d2), "u1_after_reentry": repr(d1)})
+
+
+def decorated_function_raises(chk, model):
+    """@ureg.with_context(c) is WithEnter(c) . body . WithExit: also when the body raises, alone or inside another with-block"""
+    keys = [("conv", "a", "b"), ("conv", "b", "a"), ("conv", "e", "a"), ("conv", "c", "a"), ("base", "e", ""), ("gbase", "e", "")]
+    names = sorted(model.c["ctxs"])
+    valid = []
+    for c in names:
+        try:
+            u = model.registry()
+            with u.context(c):
+                pass
+            valid.append(c)
+        except Exception:
+            pass
+    for c in valid:
+        for outer in [None] + valid:
+            for raises in (True, False):
+                chk.case(("decorator", c, outer, raises), nontrivial=True)
+                u = model.registry()
+
+                @u.with_context(c)
+                def body():
+                    inside = [pm.probe(u, k) for k in keys]
+                    if raises:
+                        raise RuntimeError("left by an exception")
+                    return inside
+
+                def vec():
+                    return [pm.probe(u, k) for k in keys]
+                base = vec()
+                sig = {"clause": "decorated-function", "raises": raises, "nested": outer is not None}
+                try:
+                    if outer is None:
+                        try:
+                            body()
+                        except RuntimeError:
+                            pass
+                        after_call, after_all = vec(), None
+                    else:
+                        with u.context(outer):
+                            in_outer = vec()
+                            try:
+                                body()
+                            except RuntimeError:
+                                pass
+                            after_call = vec()
+                            if after_call != in_outer:
+                                chk.diverge(dict(sig, what="outer-block-disturbed"), {"context": c, "outer": outer, "before": repr(in_outer), "after": repr(after_call)})
+                        after_call = vec()
+                except Exception as e:
+                    chk.diverge(dict(sig, what="raises", exc=type(e).__name__), {"context": c, "outer": outer})
+                    continue
+                if after_call != base:
+                    chk.diverge(dict(sig, what="residue"), {"context": c, "outer": outer, "before": repr(base), "after": repr(after_call)})
 
 
 def replay(chk, rec):
